@@ -382,6 +382,28 @@ Proof.
   specialize (H H0 H0 eq_refl). lia.
 Qed.
 
+Lemma addbit_sub_sound : forall bitnum numbits, is_int bitnum -> is_int numbits ->
+  fst (addbit_guard_f BitSub bitnum numbits) = true ->
+  0 <= bitnum /\ 1 <= numbits /\ bitnum + numbits <= 64.
+Proof.
+  intros b n Hb Hn H. unfold addbit_guard_f in H.
+  destruct (n <? 1) eqn:E1; [discriminate|]. apply Z.ltb_ge in E1.
+  destruct (b <? 0) eqn:E2; [discriminate|]. apply Z.ltb_ge in E2.
+  unfold fst in H. apply negb_true_iff, orb_false_iff in H. destruct H as [H1 H2].
+  rewrite Z.gtb_ltb in H1, H2. apply Z.ltb_ge in H1. apply Z.ltb_ge in H2. lia.
+Qed.
+
+Lemma addbit_as_built : forall bitnum numbits, is_int bitnum -> is_int numbits ->
+  (addbit_form = BitSub \/ bitnum + numbits <= INT_MAX) ->
+  fst (addbit_guard_f addbit_form bitnum numbits) = true ->
+  0 <= bitnum /\ 1 <= numbits /\ bitnum + numbits <= 64.
+Proof.
+  intros b n Hb Hn Hc H. destruct addbit_form eqn:F.
+  - destruct Hc as [Hc|Hc]; [discriminate|]. apply addbit_guard_partial; auto.
+  - apply addbit_sub_sound; auto.
+  - discriminate.
+Qed.
+
 Lemma fragment_guard_sound : forall i n, fragment_guard i n = true -> 0 <= i < n.
 Proof.
   unfold fragment_guard. intros i n H. apply negb_true_iff, orb_false_iff in H.
